@@ -106,7 +106,10 @@ macro_rules! js_harness {
                 } else {
                     w.write(text);
                 }
-                // Drop appends the closing backtick
+                // Drop appends the closing backtick. The writer's own `indent_str` was created by
+                // `String::new()`; swap in an explicitly empty String before the drop glue runs
+                // (Kani artefact: String::new() constants may carry a non-zero capacity, DESIGN section 5).
+                core::mem::forget(core::mem::replace(&mut w.indent_str, sink::empty_string()));
             }
             let (out, len) = sink::contents(&buf);
             let cooked = template_cooked(&out, len);
